@@ -352,6 +352,16 @@ func (ab *dsAddrBook) ConsumePeerRecord(recordEnvelope *record.Envelope, ttl tim
 	return true, nil
 }
 
+// signedAddr returns the form in which an addr listed in p's signed record is
+// stored: addrs are stored without their /p2p/<p> suffix, so a record that lists
+// them with the suffix must be compared (and deleted) without it.
+func signedAddr(a ma.Multiaddr, p peer.ID) ma.Multiaddr {
+	if t, id := peer.SplitAddr(a); t != nil && id == p {
+		return t
+	}
+	return a
+}
+
 // supersededSignedAddrs returns addrs that were present in the previously
 // stored signed peer record for p but are absent in newAddrs. Addrs held by
 // a live connection (TTL >= ConnectedAddrTTL) are excluded so an active
@@ -372,7 +382,7 @@ func (ab *dsAddrBook) supersededSignedAddrs(p peer.ID, newAddrs []ma.Multiaddr) 
 
 	newSet := make(map[string]struct{}, len(newAddrs))
 	for _, a := range newAddrs {
-		newSet[string(a.Bytes())] = struct{}{}
+		newSet[string(signedAddr(a, p).Bytes())] = struct{}{}
 	}
 
 	pr, err := ab.loadRecord(p, true, false)
@@ -390,6 +400,7 @@ func (ab *dsAddrBook) supersededSignedAddrs(p peer.ID, newAddrs []ma.Multiaddr) 
 
 	superseded := make([]ma.Multiaddr, 0, len(prevRec.Addrs))
 	for _, a := range prevRec.Addrs {
+		a = signedAddr(a, p)
 		key := string(a.Bytes())
 		if _, still := newSet[key]; still {
 			continue
